@@ -31,6 +31,12 @@ ENCODINGS = {
     "gbk": ("gbk", "中文 测试"),
     "big5": ("big5", "中文 測試"),
     "euc-kr": ("cp949", "한국어 시험"),
+    # a stateful 7-bit encoding (every byte is ASCII, the text is not), and further families
+    "iso-2022-jp": ("iso2022_jp", "日本語 テスト"),
+    "euc-jp": ("euc_jp", "日本語 テスト"),
+    "gb18030": ("gb18030", "中文 测试 €"),
+    "windows-1250": ("cp1250", "Łódź žluťoučký"),
+    "koi8-r": ("koi8_r", "Привет мир"),
 }
 MALFORMED = {
     "utf-8": b"a := \xc3\x28;",
@@ -41,6 +47,11 @@ MALFORMED = {
     "gbk": b"a := \xff;",
     "big5": b"a := \xff;",
     "euc-kr": b"a := \xff;",
+    "iso-2022-jp": b"a := \x80;",
+    "euc-jp": b"a := \xff;",
+    "gb18030": b"a := \xff;",
+    "windows-1250": None,
+    "koi8-r": None,
 }
 
 PROGRAMS = [
@@ -95,7 +106,8 @@ class Ctx:
         words = sample.split()
         ident = next((w for w in words if w.isidentifier()), "Foo")
         base = base.replace("NONID", ident).replace("NON", sample)
-        if r.random() < 0.3:
+        # text outside ASCII is what distinguishes the encodings: most cases carry some
+        if r.random() < (0.3 if sample.isascii() else 0.7):
             base += "\n// " + sample + "\n"
         if r.random() < 0.2:
             base = base + "\n" + "x := 'pad';\n" * r.randint(1, 200)
@@ -218,8 +230,17 @@ def io_case(ctx, i, focus):
                                           "{u}.pas", "U'1.pas", "-dash.pas", "un#it.pas", "unit1.PAS" if False else "unit..pas"])
     rel = "sub/" + fname
     fpath = os.path.join(d, "sub", fname)
-    with open(fpath, "wb") as f:
-        f.write(content)
+    if r.random() < 0.15:
+        # the entry is a symbolic link to a source file kept elsewhere (shared units): every path form reaches the file
+        # through the link
+        os.makedirs(os.path.join(d, "real"))
+        with open(os.path.join(d, "real", fname), "wb") as f:
+            f.write(content)
+        os.symlink(os.path.join("..", "real", fname), fpath)
+        ctx.bump("symlinked_entry")
+    else:
+        with open(fpath, "wb") as f:
+            f.write(content)
     ctx.bump("fname:" + ("plain" if fname == "unit1.pas" else "unusual"))
     if pathform == "file":
         pargs, shown = ["--", rel] if fname.startswith("-") else [rel], rel
@@ -280,6 +301,12 @@ def io_case(ctx, i, focus):
         ctx.failures.append({"kind": "oracle", "what": "c16: files mode leaves bytes different from what stdin->stdout prints", "cfg": "enc=%s,bom=%s,mode=%s,path=%s,name=%s" % (encname, bom_kind, mode, pathform, fname.encode("unicode_escape").decode()), "input_hex": hx(content), "family": focus})
     if mode == "check" and not malformed and (rc == 0) != (content == so_in) and rc_in == 0:
         ctx.failures.append({"kind": "oracle", "what": "c16: check mode exit status does not match 'content equals the result'", "cfg": "enc=%s,bom=%s,mode=%s,path=%s,name=%s" % (encname, bom_kind, mode, pathform, fname.encode("unicode_escape").decode()), "input_hex": hx(content), "family": focus})
+    if not malformed and formatted is not None and rc_in != 0:
+        try:
+            formatted.encode({"utf8": "utf-8", "utf16le": "utf-16-le", "utf16be": "utf-16-be"}.get(eff, codec))
+            ctx.failures.append({"kind": "oracle", "what": "c17: input that is well-formed in the selected encoding is rejected", "cfg": "enc=%s,bom=%s,mode=%s" % (encname, bom_kind, mode), "input_hex": hx(content), "family": focus})
+        except UnicodeEncodeError:
+            pass
     if not malformed and formatted is not None and rc_in == 0:
         py_codec = {"utf8": "utf-8", "utf16le": "utf-16-le", "utf16be": "utf-16-be"}.get(eff, codec)
         try:
